@@ -7,6 +7,7 @@ import (
 	"encoding/json"
 	"fmt"
 	"math/big"
+	"sort"
 	"testing"
 
 	"github.com/btcsuite/btcd/btcec"
@@ -125,6 +126,15 @@ func c41Positions(n int) []int {
 		add(p)
 		add(n - 1 - p)
 	}
+	if n > 70000 {
+		// very large ciphertexts (added for the size-limit cases): both ends and 32
+		// evenly spread positions; the block-boundary sweep is done at 64 KiB
+		for k := 1; k <= 32; k++ {
+			add(k * (n / 33))
+		}
+		sort.Ints(out)
+		return out
+	}
 	for b := 64; b < n; b += 64 { // around every 64-byte keystream block boundary (offset by nonce+tag)
 		add(24 + 16 + b - 1)
 		add(24 + 16 + b)
@@ -200,14 +210,14 @@ func c41Run(r *vrep.R, keys []*c41Key, chans []*c41Chan, c c41Case) {
 	}
 	// shortened / extended by a byte, header only, empty
 	resized := map[string][]byte{
-		"last byte dropped":  ct[:len(ct)-1],
-		"first byte dropped": ct[1:],
-		"zero byte appended": append(append([]byte{}, ct...), 0),
-		"0xff byte appended": append(append([]byte{}, ct...), 0xff),
+		"last byte dropped":              ct[:len(ct)-1],
+		"first byte dropped":             ct[1:],
+		"zero byte appended":             append(append([]byte{}, ct...), 0),
+		"0xff byte appended":             append(append([]byte{}, ct...), 0xff),
 		"zero byte inserted after nonce": append(append(append([]byte{}, ct[:24]...), 0), ct[24:]...),
-		"nonce only":         ct[:24],
-		"23 bytes":           ct[:23],
-		"empty":              {},
+		"nonce only":                     ct[:24],
+		"23 bytes":                       ct[:23],
+		"empty":                          {},
 	}
 	for _, name := range []string{"last byte dropped", "first byte dropped", "zero byte appended", "0xff byte appended", "zero byte inserted after nonce", "nonce only", "23 bytes", "empty"} {
 		if _, err := dec(kRecv, resized[name]); err == nil {
@@ -268,6 +278,17 @@ func TestVerifC41(t *testing.T) {
 			if i < 9 && j < 9 && (r.Thorough() || i == 0 && j == 1 || i == 4 && j == 8 || i == 8 && j == 8) {
 				cases = append(cases, c41Case{i, j, 65536})
 			}
+		}
+	}
+	// large plaintexts around every power of two up to 4 MiB (the ciphertext is 40 bytes
+	// longer than the plaintext: a size limit applied on one side only shows up here)
+	maxPow := 21
+	if r.Thorough() {
+		maxPow = 22
+	}
+	for k := 17; k <= maxPow; k++ {
+		for _, d := range []int{-41, -40, -24, -16, -1, 0} {
+			cases = append(cases, c41Case{0, 1, 1<<uint(k) + d})
 		}
 	}
 	r.Set("keys", len(keys))
